@@ -241,5 +241,31 @@ func zzGen(mask int, depth int, allowNullable bool) (*schemas.Type, *zzSpec) {
 		t.AdditionalProperties = &schemas.Type{Type: schemas.TypeList{e}}
 		s.items = &zzSpec{kind: e}
 	}
+	if zzvrt.Param("DEFAULTS", 0) == 1 && zzvrt.Bool() {
+		switch s.kind {
+		case "string":
+			if s.format == "" {
+				s.hasDefault, s.defS = true, "dflt"
+				t.Default = "dflt"
+			}
+		case "number":
+			s.hasDefault, s.defF = true, 1.5
+			t.Default = 1.5
+		case "integer":
+			s.hasDefault, s.defF = true, 3
+			t.Default = 3.0
+		case "boolean":
+			s.hasDefault, s.defB = true, true
+			t.Default = true
+		case "enum-string":
+			s.hasDefault, s.defS = true, "green"
+			t.Default = "green"
+		case "array":
+			if s.items != nil && s.items.kind == "string" {
+				s.hasDefault = true
+				t.Default = []interface{}{"a", "b"}
+			}
+		}
+	}
 	return t, s
 }
